@@ -151,6 +151,7 @@ def run_path(query, prefix, seed):
     ctx = Ctx(prefix)
     I = Interp(prog, ctx)
     L = Leaf(I, ctx, query)
+    L.progs = _W['progs']
     res = {'outcome': None, 'violations': [], 'replay': None, 'unsupported': None}
     try:
         out = query.harness(L, **query.params)
